@@ -115,6 +115,30 @@ func newExec(s *scn.Scenario, opt Options) *exec {
 	}
 	for i, d := range s.Docs {
 		x.docs = append(x.docs, world.Build(i, d))
+		// environment variants this run really had
+		if d.NoNS {
+			x.res.Stats.Faults["navigator-without-NamespaceURL"]++
+		}
+		if d.TextName {
+			x.res.Stats.Faults["navigator-names-text-nodes"]++
+		}
+		if d.ShallowValue {
+			x.res.Stats.Faults["navigator-shallow-values"]++
+		}
+	}
+	if s.Cfg.LooseMoveTo {
+		x.res.Stats.Faults["navigator-loose-MoveTo"]++
+	}
+	if s.Cfg.NS {
+		x.res.Stats.Faults["compile-with-namespace-bindings"]++
+	}
+	for _, st := range s.Steps {
+		x.res.Stats.Faults["warm-up-repeats"] += st.Rep
+	}
+	for _, ops := range s.Tasks {
+		for _, st := range ops {
+			x.res.Stats.Faults["warm-up-repeats"] += st.Rep
+		}
 	}
 	return x
 }
